@@ -23,6 +23,7 @@ from pyvc import engine                     # noqa: E402
 from pyvc.engine import run_unit            # noqa: E402
 
 _UNITS = None
+_MOD = None
 
 
 def _load(prop, tier):
@@ -39,7 +40,72 @@ def _worker(i):
                    "obligations": {}, "failed": [], "undecided": [], "paths": 0, "covers": 0, "queries": 0,
                    "solver_s": 0.0, "wall_s": 0.0, "files": {}, "interpreted": [], "contracts_applied": [],
                    "target": _UNITS[i].target, "kind": _UNITS[i].kind, "width": _UNITS[i].width,
-                   "log_calls": 0, "unknown_forks": 0, "by_backend": {}}
+                   "log_calls": 0, "unknown_forks": 0, "by_backend": {}, "cross_stats": {}, "witnesses": []}
+
+
+def _witness_worker(job):
+    """thorough tier: replay one satisfying witness of a fully discharged path natively (engine vs. CPython)"""
+    i, model = job
+    u = _UNITS[i]
+    try:
+        rep = getattr(_MOD, "replay", None)
+        if u.kind == "refines":
+            ri = engine.replay_refines(u, model)
+        elif rep is not None:
+            ri = rep(u, {"name": u.name, "model": model})
+        else:
+            ri = engine.replay_custom(u, model)
+    except BaseException as e:     # noqa: BLE001
+        ri = {"reproduced": False, "note": "replay error %s: %s" % (type(e).__name__, e)}
+    return i, model, ri
+
+
+def dependency_units(mod, prop, units, info):
+    """modular verification: the proof units of `prop` use callee contracts (Unit(use=[...])); a change inside a callee
+    shows only as a failure of that callee's own contract.  So the check of `prop` also re-verifies every contract it
+    applies: the providing checks' proof units for exactly those keys, renamed <prop>/dep:<their name>."""
+    import contracts.frame as CF
+    out = []
+    used = set(k for u in units for k in u.use)
+    queue = list(getattr(mod, "DEPENDENCIES", []))
+    seen = set()
+    have = set()
+    while queue:
+        d = queue.pop(0)
+        if d in seen or d == prop:
+            continue
+        seen.add(d)
+        dm = importlib.import_module("checks.%s" % d.lower())
+        wmax = CF.WMAX
+        dunits = dm.units("quick")
+        CF.WMAX = wmax
+        if hasattr(dm, "provides"):
+            sel = dm.provides(used, dunits)
+        else:
+            sel = [u for u in dunits if u.kind == "refines" and u.target in used]
+        n = 0
+        for u in sel:
+            if u.name in have:
+                continue
+            have.add(u.name)
+            used |= set(u.use)
+            u.name = "%s/dep:%s" % (prop, u.name)
+            u.prop = prop
+            out.append(u)
+            n += 1
+        info[d] = n
+        queue += list(getattr(dm, "DEPENDENCIES", []))
+    return out
+
+
+def _group_names(names, unit_names):
+    """obligation names grouped by the proof unit they belong to (longest unit-name prefix)"""
+    units = sorted(unit_names, key=len, reverse=True)
+    out = {}
+    for n in names:
+        u = next((x for x in units if n.startswith(x + "/")), "")
+        out.setdefault(u, []).append(n[len(u):])
+    return out
 
 
 def sanitize(name):
@@ -72,7 +138,7 @@ def match_known(known, prop, ob):
 
 
 def main(argv=None):
-    global _UNITS
+    global _UNITS, _MOD
     ap = argparse.ArgumentParser()
     ap.add_argument("prop")
     ap.add_argument("--tier", default=os.environ.get("VERIF_TIER", "quick"))
@@ -80,6 +146,8 @@ def main(argv=None):
     ap.add_argument("--unit", default=None, help="only units whose name contains this text")
     ap.add_argument("--jobs", type=int, default=int(os.environ.get("VERIF_JOBS", "16")))
     ap.add_argument("--no-evidence", action="store_true")
+    ap.add_argument("--no-deps", action="store_true", help="do not re-verify the callee contracts this property relies on")
+    ap.add_argument("--write-lock", action="store_true", help="record this run's obligation names in obligations.lock.json")
     ap.add_argument("-v", "--verbose", action="store_true")
     args = ap.parse_args(argv)
     prop = args.prop.upper()
@@ -91,7 +159,15 @@ def main(argv=None):
         mod = _load(prop, tier)
         if args.replay:
             return replay_file(mod, args.replay)
+        _MOD = mod
+        if tier == "thorough":
+            os.environ.setdefault("PYVC_CROSS", "1")
+            os.environ.setdefault("PYVC_WITNESSES", "1")
         units = mod.units(tier)
+        dep_info = {}
+        if not args.no_deps:
+            units = units + dependency_units(mod, prop, units, dep_info)
+        args.dep_info = dep_info
         if args.unit:
             units = [u for u in units if args.unit in u.name]
         _UNITS = units
@@ -114,6 +190,27 @@ def main(argv=None):
         extra = []
         if hasattr(mod, "extra_checks"):
             extra = mod.extra_checks(tier, seed)
+        # engine vs. CPython: replay the witnesses of discharged paths on the real code
+        xcheck = {"witnesses_replayed": 0, "agree": 0, "not_replayable": 0, "disagree": []}
+        jobs = [(i, w) for i, r in enumerate(results) for w in (r.get("witnesses") or [])]
+        if jobs:
+            ctxmp = mp.get_context("fork")
+            with ctxmp.Pool(min(args.jobs, max(1, len(jobs)))) as pool:
+                for i, model, ri in pool.imap_unordered(_witness_worker, jobs, chunksize=4):
+                    xcheck["witnesses_replayed"] += 1
+                    if ri.get("reproduced"):
+                        xcheck["disagree"].append({"unit": units[i].name, "model": model, "native": ri})
+                    elif ri.get("native_obligations_evaluated") == 0 and not ri.get("note"):
+                        xcheck["nothing_to_check"] = xcheck.get("nothing_to_check", 0) + 1
+                    elif ri.get("note"):
+                        xcheck["not_replayable"] += 1
+                        why = "%s: %s" % (units[i].name.split("/")[1] if "/" in units[i].name else units[i].name,
+                                          (ri.get("note") or "")[:160])
+                        xcheck.setdefault("not_replayable_reasons", {})
+                        xcheck["not_replayable_reasons"][why] = xcheck["not_replayable_reasons"].get(why, 0) + 1
+                    else:
+                        xcheck["agree"] += 1
+        args.xcheck = xcheck
     except BaseException as e:     # noqa: BLE001
         print("CHECKER-ERROR %s: %s" % (type(e).__name__, e))
         traceback.print_exc()
@@ -131,7 +228,10 @@ def report(mod, prop, tier, seed, units, results, extra, t0, origin, args):
     paths = covers = queries = 0
     solver_s = 0.0
     by_backend = {}
+    cross_stats = {}
     for r in results:
+        for k, v in (r.get("cross_stats") or {}).items():
+            cross_stats[k] = cross_stats.get(k, 0) + v
         for name, agg in r["obligations"].items():
             o = obligations.setdefault(name, {"checks": 0, "status": "discharged", "seconds": 0.0})
             o["checks"] += agg["checks"]
@@ -187,7 +287,7 @@ def report(mod, prop, tier, seed, units, results, extra, t0, origin, args):
             known_hits.append((k, ob))
             continue
         os.makedirs(rdir, exist_ok=True)
-        uname = next((u for u in unit_by_name if ob["name"].startswith(u + "/")), None)
+        uname = max((u for u in unit_by_name if ob["name"].startswith(u + "/")), key=len, default=None)
         info = {"property": prop, "obligation": ob["name"], "detail": ob.get("detail"),
                 "solver_model": ob.get("model"), "path": ob.get("path"), "backend": ob.get("backend")}
         reproduced = False
@@ -233,6 +333,35 @@ def report(mod, prop, tier, seed, units, results, extra, t0, origin, args):
         print("UNDECIDED %s : %s" % (n, (d.get("detail") or "")[:300]))
     for r in errors:
         print("CHECKER-ERROR in unit %s:\n%s" % (r["unit"], r["error"]))
+    xdis = (getattr(args, "xcheck", None) or {}).get("disagree") or []
+    for d in xdis[:10]:
+        print("CHECKER-ERROR engine and CPython disagree: unit %s, every obligation of the path was discharged but the "
+              "native run on witness %s differs: %s" % (d["unit"], json.dumps(d["model"], default=str)[:300],
+                                                        json.dumps(d["native"], default=str)[:600]))
+
+    # ---- obligation lock: a name generated on the pinned tree must still be generated (else: undecided, not a pass)
+    lock_path = os.path.join(HERE, "obligations.lock.json")
+    lock = json.load(open(lock_path)) if os.path.exists(lock_path) else {}
+    lkey = "%s/%s" % (prop, tier)
+    lost = []
+    if not args.unit:
+        if args.write_lock:
+            if failed or undecided or errors:
+                print("CHECKER-ERROR: refusing to write the obligation lock from a run that is not clean")
+                return 3
+            lock[lkey] = _group_names(sorted(obligations), [u.name for u in units])
+            json.dump(lock, open(lock_path, "w"), indent=0, sort_keys=True)
+        elif lkey in lock:
+            have = set(obligations)
+            for uname, suffixes in lock[lkey].items():
+                for sfx in suffixes:
+                    full = uname + sfx
+                    if full not in have:
+                        lost.append(full)
+            for n in lost[:40]:
+                print("UNDECIDED %s : an obligation of the pinned tree was not generated on this tree (the code it is about "
+                      "has become unreachable for the proof unit, or a unit lost paths)" % n)
+            und_names = und_names + lost
 
     n_ob = len(obligations)
     n_dis = sum(1 for o in obligations.values() if o["status"] == "discharged")
@@ -258,12 +387,15 @@ def report(mod, prop, tier, seed, units, results, extra, t0, origin, args):
         "function_bodies_interpreted": sorted(interpreted),
         "callee_contracts_applied_at_call_sites": sorted(applied),
         "proof_units": len(units),
+        "callee_contracts_reverified_from": getattr(args, "dep_info", {}),
         "paths": paths,
         "vacuity": {"paths_with_sat_witness": covers,
                     "units_without_any_sat_path": [r["unit"] for r in results if r["covers"] == 0 and r["kind"] != "none"]},
         "solver_queries": queries,
         "solver_s": round(solver_s, 2),
         "by_backend": by_backend,
+        "second_backend_cvc5": cross_stats,
+        "cpython_cross_check": {k: (v if k != "disagree" else v[:5]) for k, v in (getattr(args, "xcheck", None) or {}).items()},
         "files": {k: "sha256:" + v for k, v in sorted(files.items())},
         "package_origin": origin,
         "int_model_bits": sorted({r["width"] for r in results}),
@@ -274,6 +406,7 @@ def report(mod, prop, tier, seed, units, results, extra, t0, origin, args):
         "failed_obligations": sorted({o["name"] for o in failed}),
         "undecided_obligations": und_names,
         "known_findings_hit": sorted(shown),
+        "obligation_lock": {"locked_names": sum(len(v) for v in lock.get(lkey, {}).values()), "lost": lost[:50]},
         "not_decided_by_this_check": meta.get("undecided_clauses", []),
         "explanation": meta.get("explanation", ""),
     }
@@ -289,9 +422,15 @@ def report(mod, prop, tier, seed, units, results, extra, t0, origin, args):
     if not args.no_evidence and not args.unit:
         os.makedirs(os.path.join(HERE, "evidence"), exist_ok=True)
         json.dump(evidence, open(os.path.join(HERE, "evidence", prop + ".json"), "w"), indent=1, default=str)
-    print("%s tier=%s units=%d paths=%d obligations=%d discharged=%d failed=%d undecided=%d known=%d wall=%.1fs solver=%.1fs"
-          % (prop, tier, len(units), paths, n_ob, n_dis, len(printed), len(und_names), len(shown), wall, solver_s))
-    if errors:
+    xc = getattr(args, "xcheck", None) or {}
+    extra_txt = ""
+    if xc.get("witnesses_replayed"):
+        extra_txt += " cpython-xcheck=%d/%d agree (%d not replayable)" % (xc["agree"], xc["witnesses_replayed"], xc["not_replayable"])
+    if cross_stats.get("rechecked"):
+        extra_txt += " cvc5=%d/%d agree" % (cross_stats["agreed"], cross_stats["rechecked"])
+    print("%s tier=%s units=%d paths=%d obligations=%d discharged=%d failed=%d undecided=%d known=%d wall=%.1fs solver=%.1fs%s"
+          % (prop, tier, len(units), paths, n_ob, n_dis, len(printed), len(und_names), len(shown), wall, solver_s, extra_txt))
+    if errors or xdis:
         return 3
     if printed:
         return 1
@@ -306,7 +445,7 @@ def report(mod, prop, tier, seed, units, results, extra, t0, origin, args):
 def replay_file(mod, path):
     info = json.load(open(path))
     units = {u.name: u for u in mod.units("quick")}
-    uname = next((u for u in units if info["obligation"].startswith(u + "/")), None)
+    uname = max((u for u in units if info["obligation"].startswith(u + "/")), key=len, default=None)
     if uname is None or info.get("solver_model") is None:
         print(json.dumps(info, indent=1))
         return 0
